@@ -14,7 +14,7 @@ CLAIMS = {
              "task is created only for the members without requirement before the first wait, or under the "
              "fold-classified fact `all requirements is_done()` for that very job; that no other co_run call site "
              "exists; that is_done is true exactly on finished tasks; that the nested body is the awaited inherited run."
-             " Also: of the job's mutable state is_done() reads only the task registry, which is reset before the first start (truth tables over own task x members for nested schedulers). Also (= R11.2): no exit of a nested run, CancelledError edges included, leaves one of its job tasks alive.",
+             " Also: of the job's mutable state is_done() reads only the task registry, which is reset before the first start (truth tables over own task x members for nested schedulers). Also (= R11.2): no exit of a nested run, CancelledError edges included, leaves one of its job tasks alive. A sequence keeps verbatim the requirements it receives while empty.",
              "asyncio's own semantics.", ENGINE + " + truth table of is_done + who-may-call scan"),
     "C02": c("Decides the accounting shape behind `return True` (accumulator from 0, once per iteration, of non-forever "
              "tasks of the current done set, against the number of non-forever members), that the main wait covers "
@@ -24,7 +24,7 @@ CLAIMS = {
     "C03": c("Necessary conditions only: absence of the wedges the property names -- window slot free on every exit "
              "of the wrapper (typestate with cancellation and exception edges), failed requirements count as done and "
              "release successors gathered from all done tasks, every main wait re-armed with deadline-now."
-             " Also: every activation queues its jobs on a window it built itself.",
+             " Also: every activation queues its jobs on a window it built itself. The default of shutdown_timeout is a positive bound.",
              "termination of run() for all schedules (liveness proper).", "typestate + " + ENGINE),
     "C04": c("Decides exit <-> verdict <-> cause-flag consistency on every return of the run, the truth tables of "
              "failed_time_out/failed_critical/why over unset / timeout 0 / positive timeout, the critical mapping of the "
@@ -40,11 +40,11 @@ CLAIMS = {
     "C06": c("Decides non-interference: a done task's outcome reaches scheduling decisions only in the exact masked form "
              "raised-and-critical; same slot effect on both outcomes of the wrapper; failed jobs counted and their "
              "successors released; the exception stays retrievable (registry never overwritten)."
-             " Also: the diagnostic helpers the run calls cannot raise on a job's outcome; raised_exception() tables; the critical flag is what the caller gave. Also: the run aborts exactly when some job of the batch raised and is critical (exists-fold over the done set).",
+             " Also: the diagnostic helpers the run calls cannot raise on a job's outcome; raised_exception() tables; the critical flag is what the caller gave. Also: the run aborts exactly when some job of the batch raised and is critical (exists-fold over the done set). The window of a run closes exactly when its last regular job has completed (tolerated failures counted).",
              "equality of the timed traces of two runs (relational).", "taint (non-interference) over path facts and provenance terms"),
     "C07": c("Decides the safety clause by typestate analysis of the window wrapper over every path, provenance of the "
              "queue bound, one window per activation sized by the scheduler's own jobs_window, and a who-may-start rule."
-             " Also: jobs_window is stored as given and written nowhere else.",
+             " Also: jobs_window is stored as given and written nowhere else. The window is unbounded only when jobs_window itself says so.",
              "the bound enforced by asyncio.Queue itself.", "typestate + provenance dataflow"),
     "C08": c("Decides that the deadline is stored once per activation before the loop as clock()+own timeout, never "
              "between two main waits, that every main wait is armed with deadline-clock() (same clock), and that the "
@@ -58,7 +58,7 @@ CLAIMS = {
     "C10": c("Decides the C3 MRO table of the nestable class (which side supplies each life-cycle method, both "
              "constructors), that the nested body is the awaited inherited run with window and deadline per activation, "
              "and the failure mapping and identity."
-             " Also: the nestable class forwards every configuration parameter unchanged to both parents; construction rules and job-truthiness rule. Also: run() is transparent to what the tree raises.",
+             " Also: the nestable class forwards every configuration parameter unchanged to both parents; construction rules and job-truthiness rule. Also: run() is transparent to what the tree raises. A nested scheduler takes a slot of its parent's window like any job; the window of a run closes with its last regular job and only then.",
              "'same times as the flattened graph' (timing).", "MRO computation + " + ENGINE),
     "C11": c("Decides task-group discipline on every normal exit and, with a CancelledError edge forked at every "
              "may-suspend await of the run (inlined into the nested form) and of the broadcast, that every path leaving "
@@ -69,12 +69,12 @@ CLAIMS = {
     "C12": c("Necessary conditions: all entry jobs started before the first wait; candidates = union over all done "
              "tasks of their successors, all visited; reverse links rebuilt and exact; guard no stronger than needed; "
              "no suspension while a slot is held."
-             " Also: is_done() is true on every finished task for atomic jobs and nested schedulers alike; the acquire really waits. Also: jobs_window is what the caller gave (stored unchanged, written nowhere else).",
+             " Also: is_done() is true on every finished task for atomic jobs and nested schedulers alike; the acquire really waits. Also: jobs_window is what the caller gave (stored unchanged, written nowhere else). No job is held back by a window that closed before the end of the run (completions are counted when they happen).",
              "FIFO hand-over of asyncio.Queue; timing.", ENGINE),
     "C13": c("Decides tidy -> shutdown -> return on every exit, atomic early once-guard with a single writer, total "
              "unfiltered broadcast through member dispatch (MRO relay for nested schedulers), bounded wait by "
              "shutdown_timeout then cancel-and-await of stragglers, truthful boolean result."
-             " Also: the synchronous shutdown() is transparent; shutdown_timeout is what the caller gave; a coroutine-based job awaits the shutdown coroutine it was given, guarded by nothing but its presence. Also: an exit of the run before any start owes the shutdown broadcast unless the member set is known empty; the cancellation handler of a nested run opens no shutdown phase of its own.",
+             " Also: the synchronous shutdown() is transparent; shutdown_timeout is what the caller gave; a coroutine-based job awaits the shutdown coroutine it was given, guarded by nothing but its presence. Also: an exit of the run before any start owes the shutdown broadcast unless the member set is known empty; the cancellation handler of a nested run opens no shutdown phase of its own. The default of shutdown_timeout is a positive bound.",
              "handler durations.", ENGINE + " + MRO"),
     "C14": c("Decides the truth tables of the six inspection methods over the 7-point life-cycle domain for the job "
              "base class and the nestable class, writer monotonicity of the registry and running flag, and identity "
@@ -82,25 +82,25 @@ CLAIMS = {
              "nothing beyond the meaning of asyncio.Task internals.", "truth tables by abstract evaluation + writer tables"),
     "C15": c("Decides the five proof obligations of the marking algorithm on topological_order (guard = all requirements "
              "marked and self unmarked, nothing else; progress or raise; count-guarded end; marks reset) and both forms "
-             "of check_cycles.",
+             "of check_cycles. check_cycles() and its helpers raise nothing of their own; the numbering hook stores the id on every pass.",
              "nothing: here the structural clauses are the argument.", ENGINE + " with fold summaries"),
     "C16": c("Decides closure (every member's requirements intersected with the receiver's own member set), minimality "
              "(no other writer), unconditional recursion, and the fold truth table of the returned value over "
              "(flag, removed, nested, nested result)."
-             " The removal test must compare the state before the prune with the state after it (requirement sets are versioned, aliases follow an in-place prune).",
+             " The removal test must compare the state before the prune with the state after it (requirement sets are versioned, aliases follow an in-place prune). A store to `required` stores a fresh set (sets pruned in place are each job's own).",
              "nothing.", "fold summary / truth table of the member loop"),
     "C17": c("Decides direction agreement by constant propagation, freshness of reverse links on every path of the "
              "public queries, the step (union over all starts, members only) and closure (fixpoint) shapes, yield "
-             "conditions of entry_jobs/exit_jobs, and traversal siblings.",
+             "conditions of entry_jobs/exit_jobs, and traversal siblings. The reverse links are rebuilt whenever asked for (no memoisation); a job is never tested for iterability before it is recognised as a job.",
              "nothing beyond set semantics; the helper shapes are matched structurally (unknown shapes are inconclusive).",
              "constant propagation + " + ENGINE + " + structural rules"),
     "C18": c("Necessary conditions: sanitize after narrowing; bypass step set (membership test first, downstreams, full "
-             "product with orientation, only the job removed); documented set terms of keep_only/keep_only_between.",
+             "product with orientation, only the job removed); documented set terms of keep_only/keep_only_between. The reverse links the surgery reads are rebuilt whenever asked for; closure additions are not conditioned on the element they are reached from; jobs are never taken for collections.",
              "preservation of the transitive closure over all DAGs (relational).", "provenance terms + " + ENGINE),
     "C19": c("Decides the chain invariant across all writers of Sequence.jobs, emptiness guards of every first/last "
              "subscript, that every dispatch branch of requires() honours remove (with KeyError form) and forwards it, "
              "indices/identity/None handling, and registration paths."
-             " Also: who may write a `required` set (frame rule); a sequence never drops a requirement received while empty. Also: a loop of requires() whose body can remove from self.required never iterates an argument that may be that very set.",
+             " Also: who may write a `required` set (frame rule); a sequence never drops a requirement received while empty. Also: a loop of requires() whose body can remove from self.required never iterates an argument that may be that very set. sanitize() / bypass_and_remove() are called by the documented graph surgery only.",
              "nothing.", ENGINE + " (sibling and deviance rules)"),
     "C20": c("Decides quoting of every attribute value and typing of every emitter hole, the 4-case edge table "
              "(exhaustive, exactly one per requirement, orientation, lhead/ltail), ids before use and tree-wide "
